@@ -54,6 +54,9 @@ TRUSTED = [
     "the Lean JSON-schema evaluator (Prelude/JsonSchema.lean) and the extractor's transcription of access_log.schema.json are "
     "compared with python-jsonschema on generated instances at every run, not proved equal to it",
     "`_encoded_len` of the formatter is an arbitrary oracle in the model (any function); K2 feeds the real answers",
+    "the model's response-cap oracle for exchange turns is keyed by cursor position; a turn replayed at one cursor after an overshoot "
+    "may measure 8 bytes more or less (Arrow padding around the refreshed token), so K compares overshoot messages with the byte "
+    "figure masked — O still compares each record with the message the client received for that request, figure included",
     "C34_one_line models json.dumps' string escaping (checked against the formatter's real lines on every run) and assumes numbers and "
     "the nested claims object print as printable ASCII (`TokensOk`); the set of characters `str.splitlines` cuts at is written into Spec",
     "the call-state cache (LRU, TTL) is an arbitrary hit/miss oracle per request in the model (`Env.cacheHit`); where "
@@ -543,6 +546,12 @@ def py_jv(v: Any, key: str | None = None) -> Any:
 
 
 # ------------------------------------------------------------------------------------------ reading a real run
+
+
+def mask_size(msg: Any) -> Any:
+    import re
+
+    return re.sub(r"\(\d+ > ", "(N > ", msg) if isinstance(msg, str) else msg
 
 
 def is_overshoot(msg: str) -> bool:
@@ -1097,6 +1106,12 @@ def check_run(ctx: Any, rig: Rig, prog: list[dict[str, Any]], cfg: Config, debug
                 continue
             for k in CMP_KEYS:
                 if k in m and jv_py(m[k]) != real[k]:
+                    if k == "error_message" and is_overshoot(str(real[k])) and mask_size(jv_py(m[k])) == mask_size(real[k]):
+                        # the model's overshoot oracle is keyed by cursor; the measured body of a *replayed* turn at one cursor may
+                        # differ by Arrow's 8-byte padding around the refreshed token.  O compares every record with the message
+                        # the client got for that very request, figure included.
+                        ctx.tag("overshoot-figure-varies-between-attempts")
+                        continue
                     ctx.mismatch(ccase, {k: slim({k: jv_py(m[k])})[k]}, {k: slim({k: real[k]})[k]}, f"{fam}: field {k} of record {j} of call {i}")
             if "stream_id" in m:
                 ms, rs = jv_py(m["stream_id"]), real["stream_id"]
@@ -1592,7 +1607,7 @@ def run(ctx: Any) -> None:
             if variant != "expired":
                 check_refusal(ctx, rig, rng.choice([rp, rx]), rng.choice([rp2, rx2]), nocap, variant, "cancel")
         thorough = ctx.tier == "thorough"
-        for n in range(ctx.budget(22, 500)):
+        for n in range(ctx.budget(22, 300)):
             prog = gen_program(rng, big=thorough or n % 5 == 0)
             for cfg in configs(rng, "all" if thorough else "some"):
                 check_run(ctx, rig, prog, cfg, debug=rng.random() < 0.35, small_caps=[rng.choice([250, 400, 650, 1000, 2500])],
@@ -1618,11 +1633,11 @@ def run(ctx: Any) -> None:
         # formatter on a spread of records / caps / variants
         if rig.cap.records:
             pool = list(rig.cap.records)
-            for _ in range(ctx.budget(40, 1500)):
+            for _ in range(ctx.budget(40, 800)):
                 check_formatter(ctx, rng.choice(pool), rng.choice([100, 200, 320, 450, 600, 800, 1100, 1500, 4000]),
                                 rng.choice(["plain", "claims", "data", "both"]))
-        k_text_records(ctx, rig, ctx.budget(60, 1500))
-        k_schema(ctx, ctx.budget(400, 20000))
+        k_text_records(ctx, rig, ctx.budget(60, 600))
+        k_schema(ctx, ctx.budget(400, 12000))
     finally:
         rig.close()
 
@@ -1641,7 +1656,7 @@ def exhaustive_small(ctx: Any, rig: Rig) -> None:
                     m = {"name": f"{kind[0]}{n}", "kind": kind, "header": n % 2 == 0, "hdr": 1, "init_logs": [], "init": "ok",
                          "steps": [{"logs": [], "act": a, "post": []} for a in steps]}
                     c = {"kind": kind, "m": m, "fin": fin, **({"iters": dem} if kind == "producer" else {"sends": dem})}
-                    for cfg in (Config("pipe"), Config("http", None, "zstd"), Config("http", 1_000_000, None)):
+                    for cfg in (Config("pipe"), Config("http", None, "zstd")) + ((Config("http", 1_000_000, None),) if n % 3 == 0 else ()):
                         check_run(ctx, rig, [c], cfg, debug=False, small_caps=[400])
                     check_run(ctx, rig, [c], Config("http", None, "zstd"), debug=False, small_caps=[400], cache=0)
     ctx.note("exhaustive_small_calls", n)
